@@ -187,6 +187,64 @@ double complex _vnacommon_mldivide(double complex *x, double complex *a,
     return 1.0;
 }
 
+/*
+ * Over-determined systems go to _vnacommon_qrsolve (recording contract):
+ * row r of the s-th system handed over carries the marker of equation
+ * (number of equations of all earlier systems) + r.  With different
+ * equation counts per system no simpler index formula coincides with it.
+ */
+static const double complex *ghost_x_base;
+static const vnacal_new_t *ghost_vnp;
+int _vnacommon_qrsolve(complex double *x, complex double *a,
+	complex double *b, int m, int n, int o)
+{
+    int sindex = (int)((x - ghost_x_base) / ghost_rows_per_system);
+    int ghost_eq_base = 0;
+
+    CHECK(o == 1 && n == ghost_rows_per_system && m > n,
+	    "kernel called on an over-determined per-system matrix");
+    CHECK(sindex >= 0 && sindex < ghost_vnp->vn_systems &&
+	    x == ghost_x_base + sindex * ghost_rows_per_system &&
+	    m == ghost_vnp->vn_system_vector[sindex].vns_equation_count,
+	    "the solution of system s goes to its own slice of x and has that system's equation count");
+    for (int s_ = 0; s_ < 4; ++s_)
+	if (s_ < sindex)
+	    ghost_eq_base += ghost_vnp->vn_system_vector[s_].vns_equation_count;
+    for (int r = 0; r < 12; ++r) {
+	if (r < m) {
+	    double mark = (double)(ghost_eq_base + r + 2);
+
+	    for (int c = 0; c < 8; ++c)
+		if (c < n)
+		    CHECK(creal(a[r * n + c]) == 0.0 || creal(a[r * n + c]) == mark ||
+			    creal(a[r * n + c]) == -mark,
+			    "every coefficient of an equation is weighted with that equation's own weight (over-determined system)");
+	    CHECK(creal(b[r]) == 0.0 || creal(b[r]) == mark || creal(b[r]) == -mark,
+		    "every right-hand side entry is weighted with that equation's own weight (over-determined system)");
+	}
+    }
+    for (int c = 0; c < 8; ++c)
+	if (c < n)
+	    x[c] = 1.0;
+    ++ghost_kernel_calls;
+    return n;
+}
+
+#ifdef OVERDETERMINED
+/*
+ * ASSUMED CONTRACT: the V matrices stay as initialised (identity), so the
+ * second pass over each over-determined system sees the same coefficients
+ * and the iteration ends (x unchanged).
+ */
+int _vnacal_new_solve_update_v_matrices(const char *function,
+	vnacal_new_solve_state_t *vnssp, int sindex,
+	const double complex *x_vector, int x_length)
+{
+    (void)function; (void)vnssp; (void)sindex; (void)x_vector; (void)x_length;
+    return 0;
+}
+#endif
+
 void h_simple_weight_index(void)
 {
     static double f[1] = { 1.0e9 };
@@ -213,16 +271,36 @@ void h_simple_weight_index(void)
     ASSUME(vnacal_new_add_single_reflect_m(vnp, m1, 1, 1, VNACAL_SHORT, 2) == 0);
     ASSUME(vnacal_new_add_single_reflect_m(vnp, m1, 1, 1, VNACAL_OPEN, 2) == 0);
     ASSUME(vnacal_new_add_single_reflect_m(vnp, m1, 1, 1, VNACAL_MATCH, 2) == 0);
+#ifdef OVERDETERMINED
+    /* one redundant reflect on port 1, two on port 2: unknowns+1 and unknowns+2 equations */
+    ASSUME(vnacal_new_add_single_reflect_m(vnp, m1, 1, 1, VNACAL_SHORT, 1) == 0);
+    ASSUME(vnacal_new_add_single_reflect_m(vnp, m1, 1, 1, VNACAL_SHORT, 2) == 0);
+    ASSUME(vnacal_new_add_single_reflect_m(vnp, m1, 1, 1, VNACAL_OPEN, 2) == 0);
+    /* bounds the V-matrix iteration for symex (calloc'ed prev_x is not constant-folded); two passes suffice here */
+    ASSUME(vnacal_new_set_iteration_limit(vnp, 3) == 0);
+#endif
     ASSUME(vnacal_new_set_m_error(vnp, NULL, 1, nfv, NULL) == 0);
     unknowns = vnp->vn_layout.vl_t_terms - 1;
+#ifdef OVERDETERMINED
+    ASSUME(vnp->vn_systems == 2 && vnp->vn_system_vector[0].vns_equation_count == unknowns + 1 &&
+	    vnp->vn_system_vector[1].vns_equation_count == unknowns + 2 && unknowns <= 8 &&
+	    vnp->vn_equations <= 16);
+#else
     ASSUME(vnp->vn_systems == 2 && vnp->vn_system_vector[0].vns_equation_count == unknowns &&
 	    vnp->vn_system_vector[1].vns_equation_count == unknowns && unknowns <= 8);
+#endif
     ghost_rows_per_system = unknowns;
     ASSUME(vs_init(&vnss, vnp) == 0);
     ASSUME(vs_start_frequency(&vnss, 0) == 0);
+    ghost_x_base = x;
+    ghost_vnp = vnp;
     rc = _vnacal_new_solve_simple(&vnss, x, 2 * unknowns);
     REACH("solve_simple returned");
+#ifdef OVERDETERMINED
+    CHECK(rc == 0 && ghost_kernel_calls == 4, "both systems were assembled and handed to the kernel (twice each: the iteration ends when x repeats)");
+#else
     CHECK(rc == 0 && ghost_kernel_calls == 2, "both systems were assembled and handed to the kernel");
+#endif
     vs_free(&vnss);
     vnacal_new_free(vnp);
     vnacal_free(vcp);
